@@ -293,7 +293,8 @@ class Functional(BasicForm):
     def __new__(cls, expr, domain, evaluate=True, **options):
 
         # compute dim from fields if available
-        ls = tuple(expr.atoms(ScalarFunction, VectorFunction))
+        # sorted by name: the first element of a set depends on the string-hash seed
+        ls = sorted(expr.atoms(ScalarFunction, VectorFunction), key=str)
         if ls:
             F = ls[0]
             space = F.space
